@@ -46,6 +46,8 @@ type Dump struct {
 	nextDead     int
 	allTypes     []types.Type
 	unsup        []unsup
+	vregs        map[ssa.Value]map[string]int
+	nextVreg     int
 }
 
 // CanPoint mirrors internal/pointer.CanPoint (an external module cannot import internal packages).
@@ -234,35 +236,154 @@ func (d *Dump) emit(f int, ins ssa.Instruction, format string, args ...any) {
 
 func (d *Dump) dead() int { d.nextDead++; return 1000000 + d.nextDead }
 
-// extracts returns, for a tuple-valued instruction, the register of `extract #i` (a fresh dead register if
-// that component is never extracted or not pointer-like).
-func (d *Dump) extracts(f *ssa.Function, v ssa.Value, n int) []int {
-	res := make([]int, n)
-	for i := range res {
-		res[i] = -1
+// ---- aggregates ------------------------------------------------------------------------------
+// A struct-valued SSA register cannot be queried (CanPoint is false) and the solver gives it one node
+// per flattened field.  It is dumped as a group of VIRTUAL registers, one per pointer-like leaf
+// (numbers >= VBase); the oracle derives their points-to sets and `ptrClosed` checks them against the
+// real sets of the queryable registers they flow into.  Arrays / tuples with pointers held BY VALUE
+// are outside the fragment.
+
+// VBase is the first virtual register number (must equal `vbase` of Argot/Model/PtrFacts.lean).
+const VBase = 2000000
+
+type leaf struct {
+	path []string // field names
+	typ  types.Type
+}
+
+// leavesOf: the pointer-like leaves of a value of type T. ok=false: pointers in a by-value array/tuple.
+func leavesOf(T types.Type) ([]leaf, bool) {
+	if CanPoint(T) {
+		return []leaf{{nil, T}}, true
 	}
+	switch U := T.Underlying().(type) {
+	case *types.Struct:
+		var out []leaf
+		for i := 0; i < U.NumFields(); i++ {
+			ls, ok := leavesOf(U.Field(i).Type())
+			if !ok {
+				return nil, false
+			}
+			for _, l := range ls {
+				out = append(out, leaf{append([]string{U.Field(i).Name()}, l.path...), l.typ})
+			}
+		}
+		return out, true
+	case *types.Array, *types.Tuple:
+		return nil, !HasPointers(T)
+	}
+	return nil, true
+}
+
+func isAgg(T types.Type) bool { return !CanPoint(T) && HasPointers(T) }
+
+func (d *Dump) pathStr(prefix string, path []string) string {
+	var ss []string
+	if prefix != "" {
+		ss = append(ss, prefix)
+	}
+	for _, n := range path {
+		ss = append(ss, fmt.Sprintf("F%d", intern(d.FieldOf, n)))
+	}
+	if len(ss) == 0 {
+		return "-"
+	}
+	return strings.Join(ss, ".")
+}
+
+func (d *Dump) vreg(v ssa.Value, path []string) int {
+	key := strings.Join(path, ".")
+	m := d.vregs[v]
+	if m == nil {
+		m = map[string]int{}
+		d.vregs[v] = m
+	}
+	if r, ok := m[key]; ok {
+		return r
+	}
+	d.nextVreg++
+	r := VBase + d.nextVreg
+	m[key] = r
+	return r
+}
+
+// slotPaths: the slots a value of type T occupies in a parameter / result / binding list: one per
+// pointer-like leaf for an aggregate, exactly one otherwise.
+func (d *Dump) slotPaths(fn *ssa.Function, T types.Type, where ssa.Instruction) [][]string {
+	if isAgg(T) {
+		ls, ok := leavesOf(T)
+		if !ok {
+			d.unsupported(fn, where, "array / tuple with pointers held by value: "+T.String())
+			return nil
+		}
+		var out [][]string
+		for _, l := range ls {
+			out = append(out, l.path)
+		}
+		return out
+	}
+	return [][]string{nil}
+}
+
+// srcSlots: the operands of a value used as a source (argument, result, binding, stored value).
+func (d *Dump) srcSlots(fn *ssa.Function, v ssa.Value, where ssa.Instruction) []string {
+	if isAgg(v.Type()) {
+		var out []string
+		for _, p := range d.slotPaths(fn, v.Type(), where) {
+			if _, isConst := v.(*ssa.Const); isConst {
+				out = append(out, "c")
+			} else {
+				out = append(out, fmt.Sprintf("r%d", d.vreg(v, p)))
+			}
+		}
+		return out
+	}
+	return []string{d.opnd(fn, v)}
+}
+
+// dstSlots: the registers of a value used as a destination (nil value: as many dead registers as the type has slots).
+func (d *Dump) dstSlots(fn *ssa.Function, v ssa.Value, T types.Type, where ssa.Instruction) []int {
+	paths := d.slotPaths(fn, T, where)
+	var out []int
+	for _, p := range paths {
+		switch {
+		case v == nil:
+			out = append(out, d.dead())
+		case isAgg(T):
+			out = append(out, d.vreg(v, p))
+		default:
+			out = append(out, d.regs(fn)[v])
+		}
+	}
+	return out
+}
+
+// component returns the `extract #i` value of a tuple-valued instruction (nil if never extracted).
+func (d *Dump) component(fn *ssa.Function, v ssa.Value, i int) ssa.Value {
+	var found ssa.Value
 	if refs := v.Referrers(); refs != nil {
 		for _, r := range *refs {
 			if e, ok := r.(*ssa.Extract); ok {
-				if CanPoint(e.Type()) {
-					if res[e.Index] >= 0 {
-						d.unsupported(f, e, "component extracted twice")
+				if e.Index == i {
+					if found != nil {
+						d.unsupported(fn, e, "component extracted twice")
 					}
-					res[e.Index] = d.regs(f)[e]
-				} else if HasPointers(e.Type()) {
-					d.unsupported(f, e, "aggregate-valued extract")
+					found = e
 				}
 			} else if _, isDbg := r.(*ssa.DebugRef); !isDbg {
-				d.unsupported(f, r, "tuple used other than by extract")
+				d.unsupported(fn, r, "tuple used other than by extract")
 			}
 		}
 	}
-	for i := range res {
-		if res[i] < 0 {
-			res[i] = d.dead()
-		}
+	return found
+}
+
+// target: the value that receives the result of a possibly comma-ok instruction.
+func (d *Dump) target(fn *ssa.Function, v ssa.Value, commaOk bool) ssa.Value {
+	if commaOk {
+		return d.component(fn, v, 0)
 	}
-	return res
+	return v
 }
 
 func joinInts(xs []int) string {
@@ -283,18 +404,47 @@ func joinStrs(xs []string) string {
 	return strings.Join(xs, ",")
 }
 
-// dst returns the destination register of a value-producing instruction with an optional comma-ok tuple.
-func (d *Dump) dst(f *ssa.Function, v ssa.Value, commaOk bool, elem types.Type) (int, bool) {
-	if !CanPoint(elem) {
-		if HasPointers(elem) {
-			d.unsupported(f, v.(ssa.Instruction), "aggregate-valued result")
-		}
-		return 0, false
+// loadInto emits the loads of a value of type T from the cell(s) `sel` below pointer operand x.
+func (d *Dump) loadInto(fn *ssa.Function, f int, ins ssa.Instruction, dst ssa.Value, T types.Type, x string, sel string) bool {
+	if !HasPointers(T) {
+		return false
 	}
-	if commaOk {
-		return d.extracts(f, v, 2)[0], true
+	paths := d.slotPaths(fn, T, ins)
+	regs := d.dstSlots(fn, dst, T, ins)
+	for i, p := range paths {
+		d.emit(f, ins, "load %d %s %s", regs[i], x, d.pathStr(sel, p))
 	}
-	return d.regs(f)[v], true
+	return true
+}
+
+// storeFrom emits the stores of value v into the cell(s) `sel` below pointer operand x.
+func (d *Dump) storeFrom(fn *ssa.Function, f int, ins ssa.Instruction, v ssa.Value, x string, sel string) bool {
+	if !HasPointers(v.Type()) {
+		return false
+	}
+	paths := d.slotPaths(fn, v.Type(), ins)
+	srcs := d.srcSlots(fn, v, ins)
+	for i, p := range paths {
+		d.emit(f, ins, "store %s %s %s", x, d.pathStr(sel, p), srcs[i])
+	}
+	return true
+}
+
+// copyInto emits dst := src slot by slot.
+func (d *Dump) copyInto(fn *ssa.Function, f int, ins ssa.Instruction, dst ssa.Value, src ssa.Value) bool {
+	if !HasPointers(dst.Type()) {
+		return false
+	}
+	regs := d.dstSlots(fn, dst, dst.Type(), ins)
+	srcs := d.srcSlots(fn, src, ins)
+	if len(regs) != len(srcs) {
+		d.unsupported(fn, ins, "copy between differently shaped values")
+		return false
+	}
+	for i := range regs {
+		d.emit(f, ins, "copy %d %s", regs[i], srcs[i])
+	}
+	return true
 }
 
 func (d *Dump) instr(fn *ssa.Function, f int, ins ssa.Instruction) {
@@ -305,23 +455,33 @@ func (d *Dump) instr(fn *ssa.Function, f int, ins ssa.Instruction) {
 		d.emit(f, ins, "alloc %d %d", reg[v], d.site(v))
 		d.Kinds[fmt.Sprintf("%T", ins)]++
 	case *ssa.Phi:
-		if CanPoint(ins.Type()) {
+		if HasPointers(ins.Type()) {
 			for _, e := range ins.Edges {
-				d.emit(f, ins, "copy %d %s", reg[ins], d.opnd(fn, e))
+				d.copyInto(fn, f, ins, ins, e)
 			}
-			d.Kinds["Phi"]++
-		} else if HasPointers(ins.Type()) {
-			d.unsupported(fn, ins, "aggregate-valued phi")
+			d.kind("Phi", ins.Type())
 		}
 	case *ssa.ChangeType:
-		d.copyLike(fn, f, ins, ins, ins.X)
+		if d.copyInto(fn, f, ins, ins, ins.X) {
+			d.kind("ChangeType", ins.Type())
+		}
 	case *ssa.ChangeInterface:
-		d.copyLike(fn, f, ins, ins, ins.X)
+		if d.copyInto(fn, f, ins, ins, ins.X) {
+			d.Kinds["ChangeInterface"]++
+		}
 	case *ssa.Slice:
-		d.copyLike(fn, f, ins, ins, ins.X)
+		if d.copyInto(fn, f, ins, ins, ins.X) {
+			d.Kinds["Slice"]++
+		}
 	case *ssa.SliceToArrayPointer:
-		d.copyLike(fn, f, ins, ins, ins.X)
+		if d.copyInto(fn, f, ins, ins, ins.X) {
+			d.Kinds["SliceToArrayPointer"]++
+		}
 	case *ssa.Convert:
+		if isAgg(ins.Type()) {
+			d.copyInto(fn, f, ins, ins, ins.X)
+			return
+		}
 		if !CanPoint(ins.Type()) {
 			return
 		}
@@ -339,25 +499,38 @@ func (d *Dump) instr(fn *ssa.Function, f int, ins ssa.Instruction) {
 	case *ssa.IndexAddr:
 		d.emit(f, ins, "addr %d %s E", reg[ins], d.opnd(fn, ins.X))
 		d.Kinds["IndexAddr"]++
+	case *ssa.Field:
+		if !HasPointers(ins.Type()) {
+			return
+		}
+		st := ins.X.Type().Underlying().(*types.Struct)
+		name := st.Field(ins.Field).Name()
+		paths := d.slotPaths(fn, ins.Type(), ins)
+		regs := d.dstSlots(fn, ins, ins.Type(), ins)
+		for i, p := range paths {
+			src := "c"
+			if _, isConst := ins.X.(*ssa.Const); !isConst {
+				src = fmt.Sprintf("r%d", d.vreg(ins.X, append([]string{name}, p...)))
+			}
+			d.emit(f, ins, "copy %d %s", regs[i], src)
+		}
+		d.kind("Field", ins.Type())
 	case *ssa.UnOp:
 		switch ins.Op {
 		case token.MUL:
-			if r, ok := d.dst(fn, ins, false, ins.Type()); ok {
-				d.emit(f, ins, "load %d %s -", r, d.opnd(fn, ins.X))
-				d.Kinds["Load"]++
+			if d.loadInto(fn, f, ins, ins, ins.Type(), d.opnd(fn, ins.X), "") {
+				d.kind("Load", ins.Type())
 			}
 		case token.ARROW:
 			elem := ins.X.Type().Underlying().(*types.Chan).Elem()
-			if r, ok := d.dst(fn, ins, ins.CommaOk, elem); ok {
-				d.emit(f, ins, "load %d %s B", r, d.opnd(fn, ins.X))
-				d.Kinds["Recv"]++
+			if d.loadInto(fn, f, ins, d.target(fn, ins, ins.CommaOk), elem, d.opnd(fn, ins.X), "B") {
+				d.kind("Recv", elem)
 			}
 		}
 	case *ssa.Lookup:
 		if m, ok := ins.X.Type().Underlying().(*types.Map); ok {
-			if r, ok := d.dst(fn, ins, ins.CommaOk, m.Elem()); ok {
-				d.emit(f, ins, "load %d %s V", r, d.opnd(fn, ins.X))
-				d.Kinds["Lookup"]++
+			if d.loadInto(fn, f, ins, d.target(fn, ins, ins.CommaOk), m.Elem(), d.opnd(fn, ins.X), "V") {
+				d.kind("Lookup", m.Elem())
 			}
 		}
 	case *ssa.Next:
@@ -370,61 +543,45 @@ func (d *Dump) instr(fn *ssa.Function, f int, ins ssa.Instruction) {
 			return
 		}
 		m := rng.X.Type().Underlying().(*types.Map)
-		ex := d.extracts(fn, ins, 3)
-		if CanPoint(m.Key()) {
-			d.emit(f, ins, "load %d %s K", ex[1], d.opnd(fn, rng.X))
-		} else if HasPointers(m.Key()) {
-			d.unsupported(fn, ins, "aggregate map key")
-		}
-		if CanPoint(m.Elem()) {
-			d.emit(f, ins, "load %d %s V", ex[2], d.opnd(fn, rng.X))
-		} else if HasPointers(m.Elem()) {
-			d.unsupported(fn, ins, "aggregate map value")
-		}
+		d.loadInto(fn, f, ins, d.component(fn, ins, 1), m.Key(), d.opnd(fn, rng.X), "K")
+		d.loadInto(fn, f, ins, d.component(fn, ins, 2), m.Elem(), d.opnd(fn, rng.X), "V")
 		d.Kinds["Next"]++
 	case *ssa.Store:
-		if CanPoint(ins.Val.Type()) {
-			d.emit(f, ins, "store %s - %s", d.opnd(fn, ins.Addr), d.opnd(fn, ins.Val))
-			d.Kinds["Store"]++
-		} else if HasPointers(ins.Val.Type()) {
-			d.unsupported(fn, ins, "aggregate-valued store")
+		if d.storeFrom(fn, f, ins, ins.Val, d.opnd(fn, ins.Addr), "") {
+			d.kind("Store", ins.Val.Type())
 		}
 	case *ssa.MapUpdate:
-		m := ins.Map.Type().Underlying().(*types.Map)
-		if CanPoint(m.Key()) {
-			d.emit(f, ins, "store %s K %s", d.opnd(fn, ins.Map), d.opnd(fn, ins.Key))
-		} else if HasPointers(m.Key()) {
-			d.unsupported(fn, ins, "aggregate map key")
+		a := d.storeFrom(fn, f, ins, ins.Key, d.opnd(fn, ins.Map), "K")
+		b := d.storeFrom(fn, f, ins, ins.Value, d.opnd(fn, ins.Map), "V")
+		if a || b {
+			d.kind("MapUpdate", ins.Value.Type())
 		}
-		if CanPoint(m.Elem()) {
-			d.emit(f, ins, "store %s V %s", d.opnd(fn, ins.Map), d.opnd(fn, ins.Value))
-		} else if HasPointers(m.Elem()) {
-			d.unsupported(fn, ins, "aggregate map value")
-		}
-		d.Kinds["MapUpdate"]++
 	case *ssa.Send:
-		if CanPoint(ins.X.Type()) {
-			d.emit(f, ins, "store %s B %s", d.opnd(fn, ins.Chan), d.opnd(fn, ins.X))
-			d.Kinds["Send"]++
-		} else if HasPointers(ins.X.Type()) {
-			d.unsupported(fn, ins, "aggregate-valued send")
+		if d.storeFrom(fn, f, ins, ins.X, d.opnd(fn, ins.Chan), "B") {
+			d.kind("Send", ins.X.Type())
 		}
 	case *ssa.MakeInterface:
-		x := "c"
-		if CanPoint(ins.X.Type()) {
-			x = d.opnd(fn, ins.X)
-		} else if HasPointers(ins.X.Type()) {
-			d.unsupported(fn, ins, "aggregate in interface")
+		var pay []string
+		if HasPointers(ins.X.Type()) {
+			paths := d.slotPaths(fn, ins.X.Type(), ins)
+			srcs := d.srcSlots(fn, ins.X, ins)
+			for i, p := range paths {
+				ps := d.pathStr("", p)
+				if ps == "-" {
+					ps = ""
+				}
+				pay = append(pay, ps+"="+srcs[i])
+			}
 		}
-		d.emit(f, ins, "mkiface %d %d %d %s", reg[ins], d.iface(ins), d.typ(ins.X.Type()), x)
-		d.Kinds["MakeInterface"]++
+		d.emit(f, ins, "mkiface %d %d %d %s", reg[ins], d.iface(ins), d.typ(ins.X.Type()), joinStrs(pay))
+		d.kind("MakeInterface", ins.X.Type())
 	case *ssa.TypeAssert:
-		d.emit(f, ins, "%s", d.typeAssert(fn, ins, d.allTypes))
+		d.typeAssert(fn, f, ins)
 	case *ssa.MakeClosure:
 		g := ins.Fn.(*ssa.Function)
 		var bs []string
 		for _, b := range ins.Bindings {
-			bs = append(bs, d.opnd(fn, b))
+			bs = append(bs, d.srcSlots(fn, b, ins)...)
 		}
 		d.emit(f, ins, "mkclosure %d %d %s", reg[ins], d.fn(g), joinStrs(bs))
 		d.Kinds["MakeClosure"]++
@@ -433,7 +590,7 @@ func (d *Dump) instr(fn *ssa.Function, f int, ins ssa.Instruction) {
 	case *ssa.Return:
 		var vs []string
 		for _, r := range ins.Results {
-			vs = append(vs, d.opnd(fn, r))
+			vs = append(vs, d.srcSlots(fn, r, ins)...)
 		}
 		d.emit(f, ins, "ret %s", joinStrs(vs))
 	case *ssa.Panic:
@@ -441,32 +598,19 @@ func (d *Dump) instr(fn *ssa.Function, f int, ins ssa.Instruction) {
 		d.Kinds["Panic"]++
 	case *ssa.Extract:
 		// folded into the producer
-	case *ssa.Field, *ssa.Index:
-		v := ins.(ssa.Value)
-		if HasPointers(v.Type()) {
-			d.unsupported(fn, ins, "field / index of an aggregate value")
+	case *ssa.Index:
+		if HasPointers(ins.Type()) {
+			d.unsupported(fn, ins, "index of an array value with pointers")
 		}
 	case *ssa.Select:
-		nrecv := 0
-		for _, st := range ins.States {
-			if st.Dir == types.RecvOnly {
-				nrecv++
-			}
-		}
-		ex := d.extracts(fn, ins, 2+nrecv)
 		k := 0
 		for _, st := range ins.States {
 			elem := st.Chan.Type().Underlying().(*types.Chan).Elem()
-			if !CanPoint(elem) && HasPointers(elem) {
-				d.unsupported(fn, ins, "select on a channel of aggregates with pointers")
-			}
 			if st.Dir == types.RecvOnly {
-				if CanPoint(elem) {
-					d.emit(f, ins, "load %d %s B", ex[2+k], d.opnd(fn, st.Chan))
-				}
+				d.loadInto(fn, f, ins, d.component(fn, ins, 2+k), elem, d.opnd(fn, st.Chan), "B")
 				k++
-			} else if CanPoint(elem) {
-				d.emit(f, ins, "store %s B %s", d.opnd(fn, st.Chan), d.opnd(fn, st.Send))
+			} else {
+				d.storeFrom(fn, f, ins, st.Send, d.opnd(fn, st.Chan), "B")
 			}
 		}
 		d.Kinds["Select"]++
@@ -476,43 +620,37 @@ func (d *Dump) instr(fn *ssa.Function, f int, ins ssa.Instruction) {
 	}
 }
 
-func (d *Dump) copyLike(fn *ssa.Function, f int, ins ssa.Instruction, v ssa.Value, x ssa.Value) {
-	if CanPoint(v.Type()) {
-		d.emit(f, ins, "copy %d %s", d.regs(fn)[v], d.opnd(fn, x))
-		d.Kinds[strings.TrimPrefix(fmt.Sprintf("%T", ins), "*ssa.")]++
-	} else if HasPointers(v.Type()) {
-		d.unsupported(fn, ins, "aggregate-valued copy")
+// kind counts an instruction kind, separating the aggregate-valued variants.
+func (d *Dump) kind(name string, T types.Type) {
+	if isAgg(T) {
+		name += "-struct"
 	}
+	d.Kinds[name]++
 }
 
-func (d *Dump) typeAssert(fn *ssa.Function, ins *ssa.TypeAssert, allTypes []types.Type) string {
-	reg := d.regs(fn)
+func (d *Dump) typeAssert(fn *ssa.Function, f int, ins *ssa.TypeAssert) {
+	dst := d.target(fn, ins, ins.CommaOk)
 	if types.IsInterface(ins.AssertedType) {
-		r := reg[ins]
-		if ins.CommaOk {
-			r = d.extracts(fn, ins, 2)[0]
-		}
 		var ts []int
-		for _, t := range allTypes {
+		for _, t := range d.allTypes {
 			if types.AssignableTo(t, ins.AssertedType) {
 				ts = append(ts, d.typ(t))
 			}
 		}
+		r := d.dstSlots(fn, dst, ins.AssertedType, ins)
 		d.Kinds["TypeAssert-iface"]++
-		return fmt.Sprintf("tfilter %d %s %s", r, d.opnd(fn, ins.X), joinInts(ts))
+		d.emit(f, ins, "tfilter %d %s %s", r[0], d.opnd(fn, ins.X), joinInts(ts))
+		return
 	}
-	if !CanPoint(ins.AssertedType) {
-		if HasPointers(ins.AssertedType) {
-			d.unsupported(fn, ins, "assertion to an aggregate type")
-		}
-		return "ret -" // no effect on pointers (placeholder keeps the instruction index)
+	if !HasPointers(ins.AssertedType) {
+		return
 	}
-	r := reg[ins]
-	if ins.CommaOk {
-		r = d.extracts(fn, ins, 2)[0]
+	paths := d.slotPaths(fn, ins.AssertedType, ins)
+	regs := d.dstSlots(fn, dst, ins.AssertedType, ins)
+	for i, p := range paths {
+		d.emit(f, ins, "tassert %d %s %d %s", regs[i], d.opnd(fn, ins.X), d.typ(ins.AssertedType), d.pathStr("", p))
 	}
-	d.Kinds["TypeAssert-concrete"]++
-	return fmt.Sprintf("tassert %d %s %d", r, d.opnd(fn, ins.X), d.typ(ins.AssertedType))
+	d.kind("TypeAssert-concrete", ins.AssertedType)
 }
 
 func (d *Dump) call(fn *ssa.Function, f int, ins ssa.CallInstruction) {
@@ -528,22 +666,24 @@ func (d *Dump) call(fn *ssa.Function, f int, ins ssa.CallInstruction) {
 				n := d.site(val)
 				d.emit(f, ins, "alloc %d %d", z, n)
 				elem := cc.Args[0].Type().Underlying().(*types.Slice).Elem()
-				if CanPoint(elem) {
-					if _, isStr := cc.Args[1].Type().Underlying().(*types.Basic); !isStr {
-						d.emit(f, ins, "hcopy r%d E %s E -", z, d.opnd(fn, cc.Args[1]))
+				if HasPointers(elem) {
+					for _, p := range d.slotPaths(fn, elem, ins) {
+						ps := d.pathStr("E", p)
+						if _, isStr := cc.Args[1].Type().Underlying().(*types.Basic); !isStr {
+							d.emit(f, ins, "hcopy r%d %s %s %s -", z, ps, d.opnd(fn, cc.Args[1]), ps)
+						}
+						d.emit(f, ins, "hcopy r%d %s %s %s a%d", z, ps, d.opnd(fn, cc.Args[0]), ps, n)
 					}
-					d.emit(f, ins, "hcopy r%d E %s E a%d", z, d.opnd(fn, cc.Args[0]), n)
-				} else if HasPointers(elem) {
-					d.unsupported(fn, ins, "append of aggregates with pointers")
 				}
 			}
 			d.Kinds["append"]++
 		case "copy":
 			elem := cc.Args[0].Type().Underlying().(*types.Slice).Elem()
-			if CanPoint(elem) {
-				d.emit(f, ins, "hcopy %s E %s E -", d.opnd(fn, cc.Args[0]), d.opnd(fn, cc.Args[1]))
-			} else if HasPointers(elem) {
-				d.unsupported(fn, ins, "copy of aggregates with pointers")
+			if HasPointers(elem) {
+				for _, p := range d.slotPaths(fn, elem, ins) {
+					ps := d.pathStr("E", p)
+					d.emit(f, ins, "hcopy %s %s %s %s -", d.opnd(fn, cc.Args[0]), ps, d.opnd(fn, cc.Args[1]), ps)
+				}
 			}
 			d.Kinds["copy"]++
 		case "panic":
@@ -583,7 +723,10 @@ func (d *Dump) call(fn *ssa.Function, f int, ins ssa.CallInstruction) {
 	}
 	var as []string
 	for _, a := range args {
-		as = append(as, d.opnd(fn, a))
+		if isAgg(a.Type()) {
+			kind += "+struct-arg"
+		}
+		as = append(as, d.srcSlots(fn, a, ins)...)
 	}
 	var dsts []int
 	spawn := 1
@@ -592,13 +735,14 @@ func (d *Dump) call(fn *ssa.Function, f int, ins ssa.CallInstruction) {
 		res := cc.Signature().Results()
 		switch {
 		case res.Len() == 1:
-			if CanPoint(res.At(0).Type()) {
-				dsts = []int{reg[val]}
-			} else if HasPointers(res.At(0).Type()) {
-				d.unsupported(fn, ins, "aggregate-valued call result")
+			if isAgg(res.At(0).Type()) {
+				kind += "+struct-result"
 			}
+			dsts = d.dstSlots(fn, val, res.At(0).Type(), ins)
 		case res.Len() > 1:
-			dsts = d.extracts(fn, val, res.Len())
+			for i := 0; i < res.Len(); i++ {
+				dsts = append(dsts, d.dstSlots(fn, d.component(fn, val, i), res.At(i).Type(), ins)...)
+			}
 		}
 	}
 	switch ins.(type) {
@@ -682,7 +826,7 @@ func New(state *dataflow.AnalyzerState) *Dump {
 	d := &Dump{State: state, FnID: map[*ssa.Function]int{}, Reg: map[*ssa.Function]map[ssa.Value]int{},
 		Code: map[int][]ssa.Instruction{}, CallSite: map[ssa.CallInstruction]int{}, SiteOf: map[ssa.Value]int{},
 		GlobOf: map[*ssa.Global]int{}, IfaceOf: map[*ssa.MakeInterface]int{}, MethOf: map[string]int{},
-		FieldOf: map[string]int{}, unknown: map[string]int{}, Kinds: map[string]int{}}
+		FieldOf: map[string]int{}, unknown: map[string]int{}, Kinds: map[string]int{}, vregs: map[ssa.Value]map[string]int{}}
 	pa := state.PointerAnalysis
 	reach := state.ReachableFunctions()
 	// function table: call-graph nodes in a deterministic order, then whatever else is referenced
@@ -750,7 +894,19 @@ func New(state *dataflow.AnalyzerState) *Dump {
 				continue
 			}
 			if g := prog.MethodValue(sel); g != nil {
-				d.Lines = append(d.Lines, fmt.Sprintf("method %d %d %d", d.typ(t), m.id, d.fn(g)))
+				var ps []string
+				if isAgg(t) {
+					ls, ok := leavesOf(t)
+					if !ok {
+						d.unsupported(g, nil, "receiver with pointers in a by-value array")
+					}
+					for _, l := range ls {
+						ps = append(ps, d.pathStr("", l.path))
+					}
+				} else {
+					ps = []string{"@"}
+				}
+				d.Lines = append(d.Lines, fmt.Sprintf("method %d %d %d %s", d.typ(t), m.id, d.fn(g), strings.ReplaceAll(joinStrs(ps), ",", ";")))
 			}
 		}
 	}
@@ -872,13 +1028,12 @@ func (d *Dump) hasStoreLike(i int) bool {
 func (d *Dump) Text() string {
 	var out []string
 	for i, fn := range d.Funcs {
-		reg := d.regs(fn)
 		var ps, fvs []int
 		for _, p := range fn.Params {
-			ps = append(ps, reg[p])
+			ps = append(ps, d.dstSlots(fn, p, p.Type(), nil)...)
 		}
 		for _, p := range fn.FreeVars {
-			fvs = append(fvs, reg[p])
+			fvs = append(fvs, d.dstSlots(fn, p, p.Type(), nil)...)
 		}
 		out = append(out, fmt.Sprintf("func %d %s %s", i, joinInts(ps), joinInts(fvs)))
 	}
